@@ -8,6 +8,7 @@ from ..fold import CannotFold, Folder
 from ..interp import analyze, truth
 from ..model import AnalysisError, Model
 from ..report import Ctx, where
+from ..strtpl import flatten
 from ..terms import NONE, show, walk
 from .quoters import consistent, fact_in, inner_quoters, is_call_to
 from .quoter_pyx import callee_name
@@ -86,13 +87,28 @@ class Unquoter:
         for e in r.by_kind("mutate"):
             if e.on_name != self.acc:
                 continue
-            if e.method != "append" or len(e.args) != 1:
+            if e.method not in ("append", "extend") or len(e.args) != 1:
                 raise AnalysisError(f"{self.qual}:{e.node.lineno}: unclassifiable operation on the output list: {e.method}")
             a, st = e.args[0], e.state
             w = where(self.fi, e.node)
-            cons = f"{self.acc}.append({show(a)[:160]})"
+            cons = f"{self.acc}.{e.method}({show(a)[:160]})"
             ctx.instance(rule)
             site = dict(event=e)
+            parts = flatten(a)
+            esc = self._escape_template(parts)
+            if e.method == "extend" and esc is None:
+                # extending the list with a string adds its characters: the same text after ''.join - anything else is unknown
+                raise AnalysisError(f"{self.qual}:{e.node.lineno}: unclassifiable emission {cons}")
+            if esc is not None:
+                # "%" + upper-case hex of an unsafe literal, in any spelling (f-string, format, %, hex()[2:].upper())
+                src, upper, has_pct = esc
+                site["cls"] = "ESCAPE-UNSAFE"
+                in_unsafe = any(v and k[0] == "cmp" and k[1] == "In" and k[2] == src and k[3] == unsafe for k, v in st.facts.items())
+                ctx.ob(rule, self.qual, cons, in_unsafe and upper,
+                       f"escape emitted outside the unsafe-literal branch or not upper-cased (unsafe: {in_unsafe}, upper: {upper})", w,
+                       sample="upper-case hex escape of an unsafe literal")
+                self.sites.append(site)
+                continue
             # verbatim slice of the input
             if a[0] == "sub" and a[1] == ("param", "val") and a[2][0] == "slice":
                 site["cls"] = "VERBATIM"
@@ -172,6 +188,15 @@ class Unquoter:
     def _in_qs_delims(self, st, t):
         return any(v and s <= QS_DELIMS | frozenset() or v for s, v in self._qs_sets(st, t))
 
+    def _escape_template(self, parts):
+        """['%'] {ord(X):X}  ->  (X, upper?, has '%')"""
+        has_pct = False
+        if parts and parts[0] == ("lit", "%"):
+            has_pct, parts = True, parts[1:]
+        if len(parts) == 1 and parts[0][0] == "fmt" and parts[0][2] in ("X", "x", "02X", "02x") and is_call_to(parts[0][1], "ord"):
+            return parts[0][1][2][0], parts[0][2].endswith("X"), has_pct
+        return None
+
     def _hex_of(self, t):
         # hex(ord(X)).upper()[2:]
         upper = False
@@ -202,7 +227,9 @@ class Unquoter:
             elif v == ("param", "val"):
                 eq = any(k[0] == "cmp" and k[1] == "Eq" and fv and ("param", "val") in (k[2], k[3]) and
                          any(is_join(x) for x in (k[2], k[3])) for k, fv in s.facts.items())
-                empty = any(k[0] == "cmp" and k[1] == "Eq" and fv and k[3] == ("const", 0) and "val" in show(k[2]) for k, fv in s.facts.items())
+                empty = any(k[0] == "cmp" and k[1] == "Eq" and fv and k[3] == ("const", 0) and "val" in show(k[2]) for k, fv in s.facts.items()) \
+                    or any(fv is False and k[0] == "call" and callee_name(k) in ("len", "PyUnicode_GET_LENGTH") and
+                           k[2] == (("param", "val"),) for k, fv in s.facts.items())
                 unchanged = any(k[0] == "phi" and k[2] == "changed" and fv is False for k, fv in s.facts.items())
                 if unchanged:
                     unchanged = self._changed_flag_sound()
